@@ -2,6 +2,7 @@ import QuickAdd.Lemmas.Types
 import QuickAdd.Lemmas.Cal
 import QuickAdd.Lemmas.Regex
 import QuickAdd.Gen.RegexTable
+import QuickAdd.Lemmas.RegexGroups
 import QuickAdd.Props.C03
 import QuickAdd.Props.C06
 /-!
@@ -16,9 +17,13 @@ import QuickAdd.Props.C06
 * `copy_rules_wf`: the field-copying productions keep field-wise well-formedness;
 * `latent_wf`: latent anchoring of a well-formed clock time yields a well-formed, existing calendar date with that clock time;
 * `span_wrapper` / `untrimmed_match_nonempty`: a rule result spans first-to-last argument; no pattern yields an empty match.
-Partial, named: that digit groups of the shipped patterns only produce in-range fields (day 1–31 …) is tied by the
-`rx`/`rules` correspondence over the pattern languages and by the fuzz of all candidates (sweep), not proved; start < end of
-the *trimmed* token span relies on no pattern matching only blanks, which the sweep checks on every candidate.
+* `digit_groups_in_range` + `capture_in_range`: for **every** shipped pattern, **every** text and every match, the text
+  captured by a group named day / month / hour / minute reads (`int()`) as a number in 1–31 / 1–12 / 0–23 / 0–59 — or
+  contains one of the listed digits this interpreter's `int()` rejects (known finding D6).  Proved by language soundness of
+  the matcher with captures (`mtc_sound`), the finite language of each group body and a kernel evaluation over the
+  regenerated table; `dom1_day_range` carries it to a production.
+Partial, named: start < end of the *trimmed* token span relies on no pattern matching only blanks, which the sweep checks on
+every candidate; the year group (`\d\d` over all Unicode digits) is not enumerated.
 -/
 namespace QuickAdd.C02
 open QuickAdd
@@ -190,6 +195,41 @@ theorem latent_wf (ts : Ts) (h mi : Int) (hh : 0 ≤ h ∧ h ≤ 23) (hm : 0 ≤
 /-- no pattern of the shipped table yields an empty (untrimmed) match, on any text -/
 theorem untrimmed_match_nonempty (p : Gen.Pat) (hp : 0 < minLen p.rx) (s : List Nat) (m : Nat × Nat × Caps) (hm : m ∈ findAll Gen.rxTabs p.rx s) : m.1 < m.2.1 :=
   findAll_nonempty Gen.rxTabs p.rx hp s m hm
+
+/-! ### digit groups of the shipped patterns only capture in-range numbers -/
+def fieldRange (n : String) : Option (Int × Int) :=
+  if n == "day" then some (1, 31) else if n == "month" then some (1, 12) else if n == "hour" then some (0, 23) else if n == "minute" then some (0, 59) else none
+
+def tableDigitCheck : Bool :=
+  Gen.table.all fun p => p.names.all fun (n, i) => match fieldRange n with
+    | some (lo, hi) => groupCheck Gen.rxTabs p.rx i (intInRange lo hi)
+    | none => true
+
+set_option maxRecDepth 100000 in
+/-- kernel evaluation over the regenerated table: all words of the finite language of every day/month/hour/minute group body -/
+theorem digit_groups_in_range : tableDigitCheck = true := by decide +kernel
+
+/-- for every shipped pattern, every text and every match: what a day/month/hour/minute group captured is in range -/
+theorem capture_in_range (p : Gen.Pat) (hp : p ∈ Gen.table) (n : String) (i : Nat) (hn : (n, i) ∈ p.names) (lo hi : Int) (hf : fieldRange n = some (lo, hi))
+    (txt : List Nat) (m : Nat × Nat × Caps) (hm : m ∈ findAll Gen.rxTabs p.rx txt) (s e : Nat) (hc : (i, s, e) ∈ m.2.2) :
+    intInRange lo hi ((txt.drop s).take (e - s)) = true := by
+  have h1 := List.all_eq_true.mp digit_groups_in_range p hp
+  have h2 := List.all_eq_true.mp h1 (n, i) hn
+  simp only [hf] at h2
+  exact groupCheck_sound Gen.rxTabs txt p.rx i _ h2 m.2.2 (findAll_caps Gen.rxTabs p.rx txt m hm) s e hc
+
+/-- carried to a production: if the token's `day` group holds such a captured text, `ruleDOM1` yields a day in 1–31
+    (or raises on the listed exotic digits, never an out-of-range day) -/
+theorem dom1_day_range (k : Tok) (w : List Nat) (hg : k.group "day" = some w) (hr : intInRange 1 31 w = true) :
+    (∃ d, ruleDOM1 k = .ok (some (.time { day := some d })) ∧ 1 ≤ d ∧ d ≤ 31) ∨ (∃ e, ruleDOM1 k = .error e ∧ (w.any fun c => inRanges Gen.intUnknown c) = true) := by
+  unfold intInRange at hr
+  cases hp : pyInt w with
+  | ok d =>
+    simp only [hp, Bool.and_eq_true, decide_eq_true_eq] at hr
+    left; exact ⟨d, by simp [ruleDOM1, grpInt, hg, hp, bind, Except.bind, pure, Except.pure], hr.1, hr.2⟩
+  | error e =>
+    simp only [hp] at hr
+    right; exact ⟨e, by simp [ruleDOM1, grpInt, hg, hp, bind, Except.bind], hr⟩
 
 /-- anchoring keeps the span -/
 theorem latent_keeps_span (ts : Ts) (a b : Art) (h : applyLatent ts a = .ok b) : b.ms = a.ms ∧ b.me = a.me := C06.latent_span ts a b h
